@@ -262,6 +262,33 @@ pub fn oracle(case: &[u8], obs: &mut Obs) -> Result<(), Fail> {
                         }
                         let v = sonic_rs::from_slice::<Value>(&doc).unwrap();
                         ensure!(v.get(w.text.as_str()).and_then(|x| x.as_u64()) == Some(1), sig("wrong-text", "Value::get by key"), "Value::get by decoded key failed on {:?}", show_bytes(&doc, 300));
+                        // every lookup decodes the member name: the text the name *denotes* finds it, through
+                        // the unchecked walker and the lazy-value lookups as well; the raw spelling of the
+                        // literal (when it differs) denotes some other name and must not
+                        let lv: LazyValue = sonic_rs::from_slice(&doc).map_err(|e| Fail::new(sig("rejects-valid", "LazyValue"), format!("{e}")))?;
+                        let ov: OwnedLazyValue = sonic_rs::from_slice(&doc).map_err(|e| Fail::new(sig("rejects-valid", "OwnedLazyValue"), format!("{e}")))?;
+                        let by_text = [
+                            ("get_unchecked by key", unsafe { sonic_rs::get_unchecked(&doc[..], &[w.text.as_str()]) }.ok().map(|l| l.as_raw_str().to_string())),
+                            ("LazyValue::get by key", lv.get(w.text.as_str()).map(|l| l.as_raw_str().to_string())),
+                            ("OwnedLazyValue::get by key", ov.get(w.text.as_str()).and_then(|l| sonic_rs::to_string(l).ok())),
+                        ];
+                        for (api, got) in by_text {
+                            ensure!(got.as_deref() == Some("1"), sig("wrong-text", api), "{api}: looking up the decoded name {:?} on {:?} gives {:?}", w.text, show_bytes(&doc, 300), got);
+                        }
+                        if let Ok(raw_spelling) = std::str::from_utf8(inner) {
+                            if raw_spelling != w.text && raw_spelling != "z" {
+                                let by_raw = [
+                                    ("get by raw spelling", sonic_rs::get(&doc[..], &[raw_spelling]).ok().map(|l| l.as_raw_str().to_string())),
+                                    ("get_unchecked by raw spelling", unsafe { sonic_rs::get_unchecked(&doc[..], &[raw_spelling]) }.ok().map(|l| l.as_raw_str().to_string())),
+                                    ("LazyValue::get by raw spelling", lv.get(raw_spelling).map(|l| l.as_raw_str().to_string())),
+                                    ("OwnedLazyValue::get by raw spelling", ov.get(raw_spelling).and_then(|l| sonic_rs::to_string(l).ok())),
+                                    ("Value::get by raw spelling", v.get(raw_spelling).and_then(|x| sonic_rs::to_string(x).ok())),
+                                ];
+                                for (api, got) in by_raw {
+                                    ensure!(got.is_none(), sig("found-missing", api), "{api}: the text {:?} is not a member name of {:?} (its only other member is \"z\"), yet the lookup returned {:?}", raw_spelling, show_bytes(&doc, 300), got);
+                                }
+                            }
+                        }
                     }
                     let mut it = sonic_rs::to_object_iter(&doc[..]);
                     match it.next() {
@@ -383,6 +410,22 @@ pub fn oracle(case: &[u8], obs: &mut Obs) -> Result<(), Fail> {
         obs.label("lossy-skipped:valid-prefix");
     } else {
         check_text("lossy Value(in-place)", es(Deserializer::from_slice(&doc).utf8_lossy().deserialize::<Value>()).map(|v| pick(&v)), &lossy_want, &doc)?;
+        // the same document next to a sibling that carries the *other* kinds of damage (invalid UTF-8 and
+        // an unpaired surrogate escape in one input): both are repaired, neither disturbs the other
+        if lossy_want.lit.is_some() {
+            let mut both = b"[\"a\xffb\",".to_vec();
+            both.extend_from_slice(&doc);
+            both.extend_from_slice(b",\"c\\ud83dd\",\"\xe2\x82\"]");
+            let r = es(Deserializer::from_slice(&both).utf8_lossy().deserialize::<Value>());
+            match r {
+                Ok(v) => {
+                    let a = v.as_array().map(|a| a.len()).unwrap_or(0);
+                    ensure!(a == 4 && v[0].as_str() == Some("a\u{fffd}b") && v[2].as_str() == Some("c\u{fffd}d") && v[3].as_str() == Some("\u{fffd}"), sig("wrong-text", "lossy Value with mixed damage"), "lossy Value of {:?}: siblings decoded as {:?}, {:?}, {:?}", show_bytes(&both, 300), v[0].as_str(), v[2].as_str(), v[3].as_str());
+                    check_text("lossy Value with mixed damage", Ok(pick(&v[1])), &lossy_want, &doc)?;
+                }
+                Err(e) => fail!(sig("rejects-valid", "lossy Value with mixed damage"), "lossy Value rejected {:?}: {}", show_bytes(&both, 300), refjson::trunc(&e, 200)),
+            }
+        }
         check_text("lossy Value(copy)", es(Deserializer::from_slice(&ws_doc).utf8_lossy().deserialize::<Option<Value>>()).map(|v| v.and_then(|v| pick(&v))), &lossy_want, &doc)?;
         if ctx == 0 {
             check_text("lossy String", es(Deserializer::from_slice(&doc).utf8_lossy().deserialize::<String>()).map(Some), &lossy_want, &doc)?;
